@@ -258,6 +258,7 @@ void PCA(matrix *mx, int scaling, size_t npc, PCAMODEL* model, ssignal *s)
       /* End Step 1 */
 
       while(1){
+        LSCI_VERIF_LOOP_HEAD(0, t, p, t_old);
         /* Step 2: projection of t' in E (t'*E) */
         MT_DVectorMatrixDotProduct(E, t, p);
         /* calc the vectors product t'*t = Sum(t[i]^2) */
@@ -299,6 +300,7 @@ void PCA(matrix *mx, int scaling, size_t npc, PCAMODEL* model, ssignal *s)
         puts("....................");
         #endif
 
+        LSCI_VERIF_PRE_CONV(0, t, t_old);
         if(calcConvergence(t, t_old) < PCACONVERGENCE){
           /* copy the loadings and score to the output data matrix */
           for(i = 0; i < t->size; i++){
